@@ -30,7 +30,7 @@ pub struct Style {
     pub nums: usize,       // 0 plain, 1 "+7" "-.5" "1." "007"; reals only (integers stay plain): 100+z exact binary expansion with z more zeros,
                            // 1000+d largest decimal with d places below the upper edge of the real's f32 rounding interval, 2000+d smallest decimal with d places above its lower edge
     pub order: usize,      // 0 ascending, 1 descending objects in the body
-    pub xref: usize,       // 0 one table section, 1 many sections, 2 xref stream W[1 2 1], 3 W[1 3 0]+Index, 4 W[2 4 2] Flate, 5 W[1 2 1] Flate+Predictor 12, 6 W [0 2 0]
+    pub xref: usize,       // 0 one table section, 1 many sections, 2 xref stream W[1 2 1], 3 W[1 3 0]+Index, 4 W[2 4 2] Flate, 5 W[1 2 1] Flate+Predictor 12, 6 W [0 2 0], 7 W[1 2 1] and 8 W[2 4 2] Flate with rows of reserved types (3, 4, 255) for the unused object numbers
     pub objstm: bool,      // non-stream objects 2.. go into an object stream (needs an xref stream)
     pub indirect_len: bool, // render(): the stream's Length is an indirect object written after the stream (render_ext takes the full `len_home` dimension instead)
     pub junk: bool,
@@ -352,12 +352,20 @@ pub fn render_ext(doc: &BTreeMap<u32, (u16, Object)>, s: &Style, len_home: usize
     } else {
         let xid = next_id;
         entries.insert(xid, (1, xref_pos as u64, 0));
-        let w: [usize; 3] = match s.xref { 2 | 5 => [1, 2, 1], 3 => [1, 3, 0], 4 => [2, 4, 2], _ => [0, 2, 0] };
+        let w: [usize; 3] = match s.xref { 2 | 5 | 7 => [1, 2, 1], 3 => [1, 3, 0], 4 | 8 => [2, 4, 2], _ => [0, 2, 0] };
         let only_type1 = w[0] == 0;
         let mut rows = Vec::new(); let mut index = String::new();
         let mut list: Vec<(u32, (u8, u64, u64))> = entries.iter().map(|(a, b)| (*a, *b)).collect();
         if s.xref != 3 { list.insert(0, (0, (0, 0, if w[2] == 1 { 255 } else { 65535 }))); }
         if only_type1 { list.retain(|(_, (t, _, _))| *t == 1); }
+        if s.xref >= 7 {
+            // ISO 32000-1 7.5.8.3: an entry of any type other than 0, 1, 2 is a reference to the null object (types reserved for
+            // future use); it still is a row of the stream. One such row for every unused object number below Size.
+            let used: std::collections::BTreeSet<u32> = list.iter().map(|x| x.0).collect();
+            let mut k = 0u64;
+            for id in 1..size { if !used.contains(&id) && id != xid { let t = [3u8, 4, 255][(k % 3) as usize]; list.push((id, (t, 0x0102 + k, 1 + k))); k += 1; } }
+            list.sort_by_key(|x| x.0);
+        }
         let mut i = 0;
         while i < list.len() { let mut j = i; while j + 1 < list.len() && list[j + 1].0 == list[j].0 + 1 { j += 1; } index.push_str(&format!("{} {} ", list[i].0, j - i + 1)); i = j + 1; }
         for (_, (t, a, b)) in &list {
@@ -366,7 +374,7 @@ pub fn render_ext(doc: &BTreeMap<u32, (u16, Object)>, s: &Style, len_home: usize
             if w[2] > 0 { rows.extend_from_slice(&b.to_be_bytes()[8 - w[2]..]); }
         }
         let rl = w[0] + w[1] + w[2];
-        let (data, extra) = match s.xref { 4 => (zlib(&rows), "/Filter/FlateDecode".to_string()), 5 => (zlib(&png_up(&rows, rl)), format!("/Filter/FlateDecode/DecodeParms<</Predictor 12/Columns {}>>", rl)), _ => (rows.clone(), String::new()) };
+        let (data, extra) = match s.xref { 4 | 8 => (zlib(&rows), "/Filter/FlateDecode".to_string()), 5 => (zlib(&png_up(&rows, rl)), format!("/Filter/FlateDecode/DecodeParms<</Predictor 12/Columns {}>>", rl)), _ => (rows.clone(), String::new()) };
         let idx = if s.xref == 2 && list.len() as u32 == size && list.first().map(|x| x.0) == Some(0) { String::new() } else { format!("/Index[{}]", index.trim()) };
         f.extend_from_slice(format!("{} 0 obj\n<</Type/XRef/Size {}/Root 1 0 R/W[{} {} {}]{}{}/Length {}>>stream\n", xid, size, w[0], w[1], w[2], idx, extra, data.len()).as_bytes());
         f.extend_from_slice(&data); f.extend_from_slice(b"\nendstream\nendobj\n");
@@ -500,9 +508,9 @@ fn style_from(v: &Value) -> (usize, Style, usize) {
 }
 
 pub fn run(thorough: bool) -> Report {
-    let mut rep = Report::new("(a) 2 abstract documents x every combination of: EOL {LF,CRLF,CR} x white-space {single, mixed incl. NUL/FF/tab, comments} x strings {literal escapes, octal + line continuation, hex with white-space / odd digits} x names {plain, #XX} x numbers {plain, +007 / -.5 / 1.} x body order {asc, desc} x xref {1 table section, many sections, stream W[1 2 1], W[1 3 0]+Index, W[2 4 2] Flate, W[1 2 1] Flate+PNG Up, W[0 2 0]} x object stream {no, yes} x stream Length {direct, indirect: integer object in the body after the stream, in the body before the stream, compressed in the object stream (only with an object stream)} x leading junk {no, yes} (quick: every 7th combination); the Length objects are checked as objects of the file. (b) digit count of reals: for each binade 2^e, e in -40..=40 (quick: -20,-3,-1,0,1,6,23,31), a document holding the 20 reals +-m*2^(e-23), m in {2^23, 2^23+1, 2^23+2, 2^24-1, 2^24-2, 0xAAAAAB, 0xD55554, 0xB504F3, 0xC90FDB, 0xA00001}, in an array and a dictionary, with every real of the file spelled in one class x 4 contexts {table/LF, many sections/CRLF/comments/descending, xref stream + object stream/mixed white-space, Flate+PNG xref stream + object stream/CR/junk}; classes: exact binary value (+0 / +3 zeros), and for every d from 1 to 3 past the last digit of the exact interval edges: the largest d-place decimal below the upper edge and the smallest d-place decimal above the lower edge of the real's f32 rounding interval (a real whose interval has no such member is spelled exactly; a class with no member for any real of the binade is not run). Oracle: exact decimal arithmetic, the spelling lies strictly between the midpoints to both f32 neighbours, so the loaded f32 must equal the abstract one bit for bit", thorough);
+    let mut rep = Report::new("(a) 2 abstract documents x every combination of: EOL {LF,CRLF,CR} x white-space {single, mixed incl. NUL/FF/tab, comments} x strings {literal escapes, octal + line continuation, hex with white-space / odd digits} x names {plain, #XX} x numbers {plain, +007 / -.5 / 1.} x body order {asc, desc} x xref {1 table section, many sections, stream W[1 2 1], W[1 3 0]+Index, W[2 4 2] Flate, W[1 2 1] Flate+PNG Up, W[0 2 0], W[1 2 1] and W[2 4 2] Flate with rows of the reserved entry types 3, 4, 255 (= null object, ISO 32000-1 7.5.8.3) for every unused object number} x object stream {no, yes} x stream Length {direct, indirect: integer object in the body after the stream, in the body before the stream, compressed in the object stream (only with an object stream)} x leading junk {no, yes} (quick: every 7th combination); the Length objects are checked as objects of the file. (b) digit count of reals: for each binade 2^e, e in -40..=40 (quick: -20,-3,-1,0,1,6,23,31), a document holding the 20 reals +-m*2^(e-23), m in {2^23, 2^23+1, 2^23+2, 2^24-1, 2^24-2, 0xAAAAAB, 0xD55554, 0xB504F3, 0xC90FDB, 0xA00001}, in an array and a dictionary, with every real of the file spelled in one class x 4 contexts {table/LF, many sections/CRLF/comments/descending, xref stream + object stream/mixed white-space, Flate+PNG xref stream + object stream/CR/junk}; classes: exact binary value (+0 / +3 zeros), and for every d from 1 to 3 past the last digit of the exact interval edges: the largest d-place decimal below the upper edge and the smallest d-place decimal above the lower edge of the real's f32 rounding interval (a real whose interval has no such member is spelled exactly; a class with no member for any real of the binade is not run). Oracle: exact decimal arithmetic, the spelling lies strictly between the midpoints to both f32 neighbours, so the loaded f32 must equal the abstract one bit for bit", thorough);
     let mut n = 0usize;
-    for variant in 0..2 { for eol in 0..3 { for ws in 0..3 { for strs in 0..3 { for names in 0..2 { for nums in 0..2 { for order in 0..2 { for xref in 0..7 { for objstm in [false, true] { for len_home in 0..4 { for junk in [false, true] {
+    for variant in 0..2 { for eol in 0..3 { for ws in 0..3 { for strs in 0..3 { for names in 0..2 { for nums in 0..2 { for order in 0..2 { for xref in 0..9 { for objstm in [false, true] { for len_home in 0..4 { for junk in [false, true] {
         if objstm && xref < 2 { continue; }
         if len_home == 3 && !(objstm && xref != 6) { continue; }   // W [0 2 0] cannot point into an object stream
         n += 1;
